@@ -136,6 +136,8 @@ class Stacked:
 
 
 def stack_model(engine, cx, lineno, seq, dim=0):
+    # the returned ys are indexed by output time along dimension 0 (shape (T, batch, d)): the Stacked abstraction is only that
+    cx.oblige(f'post.outputs-stacked-along-dim-0@L{lineno}', z3.BoolVal(isinstance(dim, int) and dim == 0), 'post', lineno)
     if isinstance(seq, SymList):
         return Stacked(seq)
     if isinstance(seq, list) and all(isinstance(x, Opaque) for x in seq):
